@@ -1,11 +1,13 @@
 //! avmon-exec: executes workload scripts against the real apache-avro library and records events.
 
 mod alloc;
+mod anyvalue;
 mod dump;
 mod dynser;
 mod exec;
 mod exec_ocf;
 mod panics;
+mod scan;
 mod sink;
 mod tagged;
 
